@@ -275,7 +275,13 @@ func (g *Gen) block(sc *scope, t *Type, depth int) *Block {
 		case k <= 3:
 			vt := g.pickDataType("letType")
 			g.inRhs++
-			pre, val := g.stmtValue(inner, vt, depth-1)
+			var pre []*Stmt
+			var val *Expr
+			if g.P.InlineRhsOnly {
+				val = g.expr(inner, vt, depth-1)
+			} else {
+				pre, val = g.stmtValue(inner, vt, depth-1)
+			}
 			g.inRhs--
 			b.Stmts = append(b.Stmts, pre...)
 			name := g.fresh("v")
@@ -308,12 +314,15 @@ func (g *Gen) block(sc *scope, t *Type, depth int) *Block {
 			g.label("destructuring let")
 			// remember for the `_` fix-up
 			st.F = nil
-		case k == 5 && g.P.Lambdas:
+		case k == 5:
 			// function-valued let: lambda or partial application, used later by name
 			pt := []*Type{TInt, TString}[g.intn(2, "fletParam")]
 			rt := []*Type{TInt, TString, TBool}[g.intn(3, "fletRet")]
 			ft := TFunc([]*Type{pt}, rt)
 			val := g.funcValue(inner, ft, depth-1)
+			if val == nil {
+				continue
+			}
 			if val.K == "var" && !strings.Contains(val.Name, ".") {
 				// `let g = f` of a local name adds nothing
 			}
@@ -541,7 +550,7 @@ func (g *Gen) genRecursive() *TopItem {
 		recCall := Call(name, TInt, Bin("-", TInt, Var(n, TInt), Int(1)))
 		body := &Expr{K: "if", T: TInt, Args: []*Expr{Bin("<=", TBool, Var(n, TInt), Int(0))},
 			Then: Blk(base), Else: Blk(Bin("+", TInt, step, recCall))}
-		f = &FuncDecl{Name: name, Params: []Param{{n, TInt, true}}, Ret: TInt, RetAnnot: g.chance(2, 3, "recRetAnnot"), Body: Blk(body)}
+		f = &FuncDecl{Name: name, Params: []Param{{n, TInt, true}}, Ret: TInt, RetAnnot: g.chance(2, 3, "recRetAnnot") || g.P.Tinyfo, Body: Blk(body)}
 	} else {
 		g.label("recursion: structural on a slice")
 		sc := &scope{}
@@ -551,7 +560,7 @@ func (g *Gen) genRecursive() *TopItem {
 		recCall := Call(name, TString, Call("slice.Tail", TSlice(TInt), Var(xs, TSlice(TInt))))
 		body := &Expr{K: "if", T: TString, Args: []*Expr{Call("slice.IsEmpty", TBool, Var(xs, TSlice(TInt)))},
 			Then: Blk(base), Else: Blk(Bin("+", TString, head, recCall))}
-		f = &FuncDecl{Name: name, Params: []Param{{xs, TSlice(TInt), true}}, Ret: TString, RetAnnot: g.chance(2, 3, "recRetAnnot"), Body: Blk(body)}
+		f = &FuncDecl{Name: name, Params: []Param{{xs, TSlice(TInt), true}}, Ret: TString, RetAnnot: g.chance(2, 3, "recRetAnnot") || g.P.Tinyfo, Body: Blk(body)}
 	}
 	sig := &FuncSig{Name: f.Name, Ret: f.Ret, Label: label}
 	for _, p := range f.Params {
@@ -568,6 +577,18 @@ func (g *Gen) prelude() []*TopItem {
 	var items []*TopItem
 	trace := &FuncDecl{Name: "trace", Params: []Param{{"s", TString, true}, {"v", tv("a"), false}}, Ret: tv("a"), TParams: []string{"a"},
 		Body: Blk(Var("v", tv("a")), ExprStmt(Call("frt.Println", TUnit, Var("s", TString))))}
+	if g.P.Tinyfo {
+		items = nil
+		for _, x := range []struct {
+			n string
+			t *Type
+		}{{"traceI", TInt}, {"traceS", TString}, {"traceB", TBool}} {
+			f := &FuncDecl{Name: x.n, Params: []Param{{"s", TString, true}, {"v", x.t, true}}, Ret: x.t,
+				Body: Blk(Var("v", x.t), ExprStmt(Call("frt.Println", TUnit, Var("s", TString))))}
+			items = append(items, &TopItem{Func: f, Label: "prelude:" + x.n})
+		}
+		return items
+	}
 	items = append(items, &TopItem{Func: trace, Label: "prelude:trace"})
 	if g.P.Generics {
 		idd := &FuncDecl{Name: "idd", Params: []Param{{"x", tv("a"), false}}, Ret: tv("a"), TParams: []string{"a"}, Body: Blk(Var("x", tv("a")))}
@@ -614,6 +635,22 @@ func (g *Gen) GenProgram() *Program {
 	}
 	main := &FuncDecl{Name: "main", Ret: TUnit, Body: &Block{Stmts: mainStmts[:len(mainStmts)-1], Final: mainStmts[len(mainStmts)-1].E}}
 	pr.Items = append(pr.Items, &TopItem{Func: main, Label: "main"})
+	if g.P.Tinyfo {
+		// tinyfo reads a slice literal only at the start of a term: as an argument it is parenthesised
+		for _, it := range pr.Items {
+			if it.Func != nil {
+				it.Func.Body.Walk(func(e *Expr) {
+					if e.K == "call" {
+						for _, a := range e.Args {
+							if a.K == "slice" && a.Extra == 0 {
+								a.Extra = 1
+							}
+						}
+					}
+				})
+			}
+		}
+	}
 	return pr
 }
 
